@@ -130,6 +130,10 @@ func CheckC01Offline(spec *vexec.CaseSpec, out *vexec.Outcome) []Report {
 
 // expectedExec returns the executions and final state of a runnable step.
 func expectedExec(s *vexec.StepSpec) (int, string) {
+	if s.TeardownFail {
+		// the command succeeds at once, flushing its output fails: one execution, step failed
+		return 1, "failed"
+	}
 	f := s.FailFirst
 	L := s.RetryLimit
 	if f < 0 || f > L {
